@@ -58,26 +58,33 @@ Definition single {A} (l : list A) : option A := match l with [v] => Some v | _ 
 
 Definition dicts := (list (list N * rawval) * list (list N * list uval))%type.
 
-(* one iteration of `for name in frozenset(parsed.keys())` *)
+(* the decision taken for one lower-cased header name: its RawMetadata key and value, or "goes to unparsed" *)
+Inductive cls := CRaw (k : list N) (v : rawval) | CUnp.
+Definition values (items : list item) (name : list N) : list (list N) := map i_val (get_all items name).
+Definition classify (items : list item) (name : list N) : cls :=
+  let headers := get_all items name in
+  let value := values items name in
+  if negb (forallb i_valid headers) then CUnp                             (* not valid_encoding *)
+  else match raw_of_email name with
+  | None => CUnp                                                          (* unknown header *)
+  | Some (raw_name, kind) =>
+      if kind =? 0 then                                                   (* raw_name in _STRING_FIELDS and len(value) == 1 *)
+        match single value with Some v => CRaw raw_name (RStr v) | None => CUnp end
+      else if kind =? 1 then CRaw raw_name (RList value)                  (* raw_name in _LIST_FIELDS *)
+      else if kind =? 2 then                                              (* keywords and len(value) == 1 *)
+        match single value with Some v => CRaw raw_name (RList (parse_keywords v)) | None => CUnp end
+      else if kind =? 3 then                                              (* project_urls; KeyError -> unparsed *)
+        match parse_project_urls [] value with Some d => CRaw raw_name (RDict d) | None => CUnp end
+      else CUnp
+  end.
+
+(* one iteration of `for name in frozenset(parsed.keys())`: name = name.lower(); raw[raw_name] = ... or unparsed[name] = value *)
 Definition step (items : list item) (st : dicts) (name0 : list N) : dicts :=
   let '(raw, unparsed) := st in
   let name := lower_name name0 in
-  let headers := get_all items name in
-  let value := map i_val headers in
-  let uvalue := map UStr value in
-  if negb (forallb i_valid headers) then (raw, dset name uvalue unparsed)          (* not valid_encoding *)
-  else match raw_of_email name with
-  | None => (raw, dset name uvalue unparsed)
-  | Some (raw_name, kind) =>
-      let to_unparsed := (raw, dset name uvalue unparsed) in
-      if kind =? 0 then                                                   (* raw_name in _STRING_FIELDS and len(value) == 1 *)
-        match single value with Some v => (dset raw_name (RStr v) raw, unparsed) | None => to_unparsed end
-      else if kind =? 1 then (dset raw_name (RList value) raw, unparsed)  (* raw_name in _LIST_FIELDS *)
-      else if kind =? 2 then                                              (* keywords and len(value) == 1 *)
-        match single value with Some v => (dset raw_name (RList (parse_keywords v)) raw, unparsed) | None => to_unparsed end
-      else if kind =? 3 then                                              (* project_urls *)
-        match parse_project_urls [] value with Some d => (dset raw_name (RDict d) raw, unparsed) | None => to_unparsed end
-      else to_unparsed
+  match classify items name with
+  | CRaw k v => (dset k v raw, unparsed)
+  | CUnp => (raw, dset name (map UStr (values items name)) unparsed)
   end.
 
 Definition k_description := asc "description".
